@@ -1,6 +1,368 @@
-//! C07 -- (stub; see DESIGN.md section 5)
-use crate::util::Args;
+//! C07 -- conditionals and \expandafter / \noexpand on the real VM.
+//!
+//! R: token lists printed by TLC (every well-formed list up to a length bound, with the delivery the
+//! spec expects) are rendered to TeX, run, and the delivered tokens compared with `want`.
+//! F: random larger trees / streams are run and recorded as call events for TLC.
+//! The harness never evaluates a condition or an expansion: it only spells tokens and reads output.
+use crate::util::{quiet_panics, Args, Out, Rng};
+use crate::vmh;
+use serde_json::{json, Value};
+use std::io::BufRead;
 
-pub fn dispatch(_cmd: &str, _args: &Args) -> Option<i32> {
-    None
+pub fn dispatch(cmd: &str, args: &Args) -> Option<i32> {
+    Some(match cmd {
+        "c07-cond-replay" => cond_replay(args),
+        "c07-cond-events" => cond_events(args),
+        "c07-exp-replay" => exp_replay(args),
+        "c07-exp-events" => exp_events(args),
+        _ => return None,
+    })
+}
+
+const COND_PRELUDE: &str = "\\let\\Aiftrue=\\iftrue \\let\\Aiffalse=\\iffalse \\let\\Aifodd=\\ifodd \\let\\Aifnum=\\ifnum \\let\\Aifcase=\\ifcase \\let\\Aor=\\or \\let\\Aelse=\\else \\let\\Afi=\\fi ";
+
+/// Spell one conditional-language token.  `alias` selects the \let-alias of a primitive.
+fn render_cond_tok(t: &Value, alias: bool) -> String {
+    let a = if alias { "A" } else { "" };
+    match t["t"].as_str().unwrap() {
+        "x" => ["?", "a", "b", "c"][t["c"].as_u64().unwrap() as usize].to_string(),
+        "lb" => "{".to_string(),
+        "rb" => "}".to_string(),
+        "or" => format!("\\{a}or "),
+        "else" => format!("\\{a}else "),
+        "fi" => format!("\\{a}fi "),
+        "case" => format!("\\{a}ifcase {} ", t["a"].as_i64().unwrap()),
+        "if" => match t["kind"].as_str().unwrap() {
+            "iftrue" => format!("\\{a}iftrue "),
+            "iffalse" => format!("\\{a}iffalse "),
+            "ifodd" => format!("\\{a}ifodd {} ", t["a"].as_i64().unwrap()),
+            "ifnum" => format!("\\{a}ifnum {}{}{} ", t["a"].as_i64().unwrap(), t["rel"].as_str().unwrap(), t["b"].as_i64().unwrap()),
+            k => panic!("unknown condition {k}"),
+        },
+        k => panic!("unknown token {k}"),
+    }
+}
+
+fn render_cond(toks: &[Value], alias_bits: u64) -> String {
+    let mut s = String::from(COND_PRELUDE);
+    for (i, t) in toks.iter().enumerate() {
+        s.push_str(&render_cond_tok(t, (alias_bits >> (i % 60)) & 1 == 1));
+    }
+    s
+}
+
+fn outcome_str(o: &vmh::Outcome) -> String {
+    match o {
+        vmh::Outcome::Ok => String::new(),
+        vmh::Outcome::Err { title, .. } => format!("error: {title}"),
+        vmh::Outcome::Panic { site, msg } => format!("panic at {site}: {msg}"),
+        vmh::Outcome::Budget => "budget".to_string(),
+    }
+}
+
+/// Run and return (ids of delivered plain tokens, error string).
+fn run_cond(src: &str) -> (Vec<i64>, String) {
+    let mut vm = vmh::new_vm(&[], &[]);
+    let r = vmh::run_src::<vmh::H>(&mut vm, "main.tex", src, 200_000);
+    let mut ids = vec![];
+    for t in &r.toks {
+        match t {
+            vmh::Tok::Char('a', _) => ids.push(1),
+            vmh::Tok::Char('b', _) => ids.push(2),
+            vmh::Tok::Char('c', _) => ids.push(3),
+            vmh::Tok::Char(' ', _) | vmh::Tok::Char('\r', _) => {} // the end-of-line space
+            vmh::Tok::Char(_, _) => ids.push(-1),
+            _ => ids.push(-2),
+        }
+    }
+    (ids, outcome_str(&r.outcome))
+}
+
+fn read_lines(path: &str) -> Vec<Value> {
+    let f = std::fs::File::open(path).unwrap_or_else(|e| {
+        eprintln!("cannot open {path}: {e}");
+        std::process::exit(2)
+    });
+    std::io::BufReader::new(f).lines().map(|l| serde_json::from_str(&l.unwrap()).unwrap()).collect()
+}
+
+fn par_map<T: Sync, R: Send>(items: &[T], f: impl Fn(usize, &T) -> R + Sync) -> Vec<R> {
+    let n = items.len();
+    let nthreads = std::thread::available_parallelism().map(|n| n.get()).unwrap_or(4);
+    let next = std::sync::atomic::AtomicUsize::new(0);
+    let out: std::sync::Mutex<Vec<(usize, R)>> = std::sync::Mutex::new(Vec::with_capacity(n));
+    std::thread::scope(|s| {
+        for _ in 0..nthreads {
+            s.spawn(|| {
+                let mut local = vec![];
+                loop {
+                    let i = next.fetch_add(1, std::sync::atomic::Ordering::SeqCst);
+                    if i >= n {
+                        break;
+                    }
+                    local.push((i, f(i, &items[i])));
+                }
+                out.lock().unwrap().extend(local);
+            });
+        }
+    });
+    let mut v = out.into_inner().unwrap();
+    v.sort_by_key(|x| x.0);
+    v.into_iter().map(|x| x.1).collect()
+}
+
+pub fn cond_replay(args: &Args) -> i32 {
+    quiet_panics();
+    let cases = read_lines(args.req("in"));
+    let seed: u64 = args.num("seed", 1);
+    let res = par_map(&cases, |i, c| {
+        let toks = c["toks"].as_array().unwrap();
+        let want: Vec<i64> = c["want"].as_array().unwrap().iter().map(|v| v.as_i64().unwrap()).collect();
+        // each case three ways: primitives only, aliases only, mixed
+        let mut bad = vec![];
+        let mut rng = Rng::new(seed ^ (i as u64) << 8);
+        for bits in [0u64, u64::MAX, rng.next()] {
+            let src = render_cond(toks, bits);
+            let (got, err) = run_cond(&src);
+            if got != want || !err.is_empty() {
+                bad.push(json!({"kind":"violation","part":"cond-replay","program":src,"toks":toks,"want":want,"got":got,"err":err}));
+                break;
+            }
+        }
+        bad
+    });
+    let mut out = Out::new(args.str("out"));
+    let mut nv = 0;
+    for b in res.iter().flatten() {
+        nv += 1;
+        if nv <= 30 {
+            out.line(b);
+        }
+    }
+    let sample = cases.get(cases.len() / 2).map(|c| render_cond(c["toks"].as_array().unwrap(), 0));
+    out.line(&json!({"kind":"summary","part":"cond-replay","cases":cases.len(),"runs":cases.len()*3,"violations":nv,"sample":sample}));
+    0
+}
+
+// ---- random well-formed trees -------------------------------------------------------------
+
+fn tok(t: &str) -> Value {
+    json!({"t":t,"kind":"","a":0,"rel":"","b":0,"c":0})
+}
+
+fn gen_body(rng: &mut Rng, depth: u32, out: &mut Vec<Value>, budget: &mut i32) {
+    let n = rng.below(4);
+    // 30% of bodies get unbalanced braces (legal only where the body ends up skipped; the spec
+    // decides and counts the instance as skipped otherwise)
+    let unbalanced = rng.chance(3, 20);
+    let mut open = 0;
+    for _ in 0..n {
+        if *budget <= 0 {
+            break;
+        }
+        *budget -= 1;
+        match rng.below(10) {
+            0..=3 => {
+                let mut t = tok("x");
+                t["c"] = json!(1 + rng.below(3));
+                out.push(t);
+            }
+            4 => {
+                out.push(tok("lb"));
+                open += 1;
+            }
+            5 => {
+                if open > 0 || unbalanced {
+                    out.push(tok("rb"));
+                    open -= 1;
+                }
+            }
+            _ => {
+                if depth > 0 {
+                    gen_cond(rng, depth - 1, out, budget);
+                }
+            }
+        }
+    }
+    if !unbalanced {
+        while open > 0 {
+            out.push(tok("rb"));
+            open -= 1;
+        }
+    }
+}
+
+const BOUNDARY: [i64; 13] = [0, 1, -1, 2, -2, 3, -3, 7, -7, 2147483647, -2147483647, 1000000, -999999];
+
+fn gen_cond(rng: &mut Rng, depth: u32, out: &mut Vec<Value>, budget: &mut i32) {
+    if rng.chance(1, 3) {
+        // \ifcase
+        let mut t = tok("case");
+        let nor = rng.below(4) as i64;
+        t["a"] = json!(*rng.pick(&[-2i64, -1, 0, 0, 1, 1, 2, 2, 3, 4, 5, 2147483647, -2147483647]));
+        out.push(t);
+        gen_body(rng, depth, out, budget);
+        for _ in 0..nor {
+            out.push(tok("or"));
+            gen_body(rng, depth, out, budget);
+        }
+        if rng.chance(1, 2) {
+            out.push(tok("else"));
+            gen_body(rng, depth, out, budget);
+        }
+        out.push(tok("fi"));
+    } else {
+        let mut t = tok("if");
+        match rng.below(4) {
+            0 => t["kind"] = json!("iftrue"),
+            1 => t["kind"] = json!("iffalse"),
+            2 => {
+                t["kind"] = json!("ifodd");
+                t["a"] = json!(*rng.pick(&BOUNDARY));
+            }
+            _ => {
+                t["kind"] = json!("ifnum");
+                t["a"] = json!(*rng.pick(&BOUNDARY));
+                t["b"] = json!(if rng.chance(1, 4) { t["a"].as_i64().unwrap() } else { *rng.pick(&BOUNDARY) });
+                t["rel"] = json!(*rng.pick(&["<", "=", ">"]));
+            }
+        }
+        out.push(t);
+        gen_body(rng, depth, out, budget);
+        if rng.chance(1, 2) {
+            out.push(tok("else"));
+            gen_body(rng, depth, out, budget);
+        }
+        out.push(tok("fi"));
+    }
+}
+
+pub fn cond_events(args: &Args) -> i32 {
+    quiet_panics();
+    let seed: u64 = args.num("seed", 1);
+    let n: usize = args.num("n", 1000);
+    let maxdepth: u32 = args.num("depth", 6);
+    let mut rng = Rng::new(seed);
+    let mut cases: Vec<(Vec<Value>, u64)> = vec![];
+    for i in 0..n {
+        let mut toks = vec![];
+        let mut budget = 40;
+        let d = (i as u32) % (maxdepth + 1);
+        // top level: a body that contains at least one conditional
+        gen_body(&mut rng, d, &mut toks, &mut budget);
+        gen_cond(&mut rng, d, &mut toks, &mut budget);
+        gen_body(&mut rng, d, &mut toks, &mut budget);
+        cases.push((toks, rng.next()));
+    }
+    let res = par_map(&cases, |_, (toks, bits)| {
+        let src = render_cond(toks, *bits);
+        let (got, err) = run_cond(&src);
+        json!({"toks":toks,"out":got,"err":err,"program":src})
+    });
+    let mut out = Out::new(args.str("out"));
+    for r in &res {
+        out.line(r);
+    }
+    0
+}
+
+// ---- \expandafter / \noexpand ---------------------------------------------------------------
+
+const EXP_PRELUDE: &str = "\\def\\mone{c}\\def\\mtwo{\\mone d}\\def\\mthree#1{e#1f}\\def\\mfour{}";
+
+fn render_exp(toks: &[Value]) -> String {
+    let mut s = String::from(EXP_PRELUDE);
+    for t in toks {
+        let c = t["c"].as_u64().unwrap_or(0);
+        match t["t"].as_str().unwrap() {
+            "x" => s.push(['?', 'a', 'b', 'c', 'd', 'e', 'f'][c as usize]),
+            "m" => s.push_str(["", "\\mone ", "\\mtwo ", "\\mthree ", "\\mfour "][c as usize]),
+            "xa" => s.push_str("\\expandafter "),
+            "nx" => s.push_str("\\noexpand "),
+            k => panic!("unknown token {k}"),
+        }
+    }
+    s
+}
+
+fn run_exp(src: &str, simple: bool) -> (Vec<Value>, String) {
+    vmh::set_simple_expandafter(simple);
+    let mut vm = vmh::new_vm(&[], &[]);
+    let r = vmh::run_src::<vmh::H>(&mut vm, "main.tex", src, 200_000);
+    vmh::set_simple_expandafter(false);
+    let mut v = vec![];
+    for t in &r.toks {
+        match t {
+            vmh::Tok::Char(' ', _) | vmh::Tok::Char('\r', _) => {}
+            vmh::Tok::Char(c, _) => v.push(json!({"t":"x","c":"?abcdef".find(*c).map(|i| i as i64).unwrap_or(-1)})),
+            vmh::Tok::Unexp(n) => v.push(json!({"t":"u","c":match n.as_str() {
+                "mone" => 1, "mtwo" => 2, "mthree" => 3, "mfour" => 4, "expandafter" => 100, "noexpand" => 101, _ => -1 }})),
+            vmh::Tok::Undef(_) => v.push(json!({"t":"undef","c":-1})),
+        }
+    }
+    (v, outcome_str(&r.outcome))
+}
+
+pub fn exp_replay(args: &Args) -> i32 {
+    quiet_panics();
+    let cases = read_lines(args.req("in"));
+    let res = par_map(&cases, |_, c| {
+        let toks = c["toks"].as_array().unwrap();
+        let want = c["want"].as_array().unwrap();
+        let src = render_exp(toks);
+        let (s, se) = run_exp(&src, true);
+        let (o, oe) = run_exp(&src, false);
+        let ok_s = &s == want && se.is_empty();
+        let ok_o = &o == want && oe.is_empty();
+        if ok_s && ok_o {
+            None
+        } else {
+            Some(json!({"toks":toks,"program":src,"want":want,"simple":{"out":s,"err":se},"optimized":{"out":o,"err":oe},
+                "builtins_agree": s == o && se == oe}))
+        }
+    });
+    let mut out = Out::new(args.str("out"));
+    for r in res.iter().flatten() {
+        out.line(r);
+    }
+    let sample = cases.get(cases.len() / 2).map(|c| render_exp(c["toks"].as_array().unwrap()));
+    eprintln!("{}", json!({"cases":cases.len(),"sample":sample}));
+    0
+}
+
+pub fn exp_events(args: &Args) -> i32 {
+    quiet_panics();
+    let seed: u64 = args.num("seed", 1);
+    let n: usize = args.num("n", 1000);
+    let maxlen: u64 = args.num("len", 14);
+    let mut rng = Rng::new(seed);
+    let mut cases: Vec<Vec<Value>> = vec![];
+    for _ in 0..n {
+        let len = 2 + rng.below(maxlen - 1);
+        let mut toks = vec![];
+        for _ in 0..len {
+            toks.push(match rng.below(12) {
+                0..=1 => json!({"t":"x","c":1 + rng.below(2)}),
+                2..=4 => json!({"t":"m","c":1 + rng.below(4)}),
+                5..=8 => json!({"t":"xa","c":0}),
+                _ => json!({"t":"nx","c":0}),
+            });
+        }
+        // a few trailing plain tokens so that most streams do not run out of input
+        for _ in 0..rng.below(4) {
+            toks.push(json!({"t":"x","c":1 + rng.below(2)}));
+        }
+        cases.push(toks);
+    }
+    let res = par_map(&cases, |_, toks| {
+        let src = render_exp(toks);
+        let (s, se) = run_exp(&src, true);
+        let (o, oe) = run_exp(&src, false);
+        json!({"toks":toks,"program":src,"simple":{"out":s,"err":se},"optimized":{"out":o,"err":oe}})
+    });
+    let mut out = Out::new(args.str("out"));
+    for r in &res {
+        out.line(r);
+    }
+    0
 }
